@@ -33,6 +33,7 @@ void begin_run(const ShapeDesc& sd, RunCtl& ctl, RunState& rs) {
   w.spec = ctl.plan.spec;
   for (auto& kv : ctl.plan.node_arg) w.node_arg[kv.first] = kv.second;
   w.fault_node = ctl.plan.fault_node; w.fault_call = ctl.plan.fault_call;
+  w.stop_call_node = ctl.plan.stop_call_node; w.stop_call_idx = ctl.plan.stop_call_idx;
   w.throw_at = ctl.plan.anon_fault;
   // KNOWN FINDING value_copy_throw_terminates: excluded by construction = value copies/moves never throw
   // (narrowed: only the shapes in which a throwing value copy can meet one of the unconditionally-noexcept set_value paths, see plan.hpp)
@@ -105,6 +106,7 @@ void drive(const ShapeDesc& sd, RunCtl& ctl, RunState& rs, const std::function<v
   Plan& plan = ctl.plan;
   Model m(sd, plan.spec);
   m.node_arg = plan.node_arg; m.fault_node = plan.fault_node; m.fault_call = plan.fault_call;
+  m.stop_call_node = plan.stop_call_node; m.stop_call_idx = plan.stop_call_idx;
   g_model = &m;
   g_delete_inplace = false;
   g_actions.clear();
